@@ -54,6 +54,8 @@ REQUIRED = {
         "sequence_p_changes": 100, "p_change_with_objective_drop_at_start": 30, "cold_restart_from_returned_array": 50,
         "cold_restart_after_converged_solve_with_objective_drop": 15, "sequence_p_change_design": 5, "interleaved_other_point": 5,
         "interleaved_other_p_same_point": 5, "sequence_driver_hand": 20, "sequence_driver_nes_cold": 20, "sequence_driver_nes_warm": 10,
+        "class:two_scale": 60, "class:long_valley": 8, "two_scale_solves": 60, "solves_with_one_step_objective_drop_ge_1e8": 30,
+        "accepted_steps_right_after_a_drop_ge_1e8": 25, "solves_with_100_or_more_accepted_steps": 3, "report_preceded_by_value": 1000,
         "class:convex_default": 24, "class:far_flat": 12, "class:exits": 24, "class:barrier": 6, "class:incremental": 8,
     },
     "quick": {},
@@ -168,6 +170,18 @@ def build_cases(tier, seed):
             n=(2, 2, 3, 5, 2, 3)[(i // 6) % 6], driver=("nes_cold", "hand", "nes_cold", "hand", "mixed", "nes_warm")[i % 6],
             interleave=("none", "none", "other_point", "none", "other_p_same_point", "none")[(i // 2) % 6],
             settings=("default", "default", "mild")[(i // 3) % 3], cost=2.5)
+    # two-scale objectives: a stiff quadratic well (K = 1e6..1e16, removable in one Newton step) + an O(1) non-quadratic part;
+    # the start sits where the stiff part dominates by 8-16 decades, and right after the big drop the next Newton trial overshoots
+    # uphill by an amount below ulp(f_start): sensitive to any incrementally updated (instead of recomputed) objective value
+    soft_kinds = ("sqrt", "sqrt", "sqrt", "quartic", "softplus", "sqrt_coupled")
+    for i in range(96 * mult):
+        add("two_scale", i, family="twoscale", soft=soft_kinds[i % 6], n=(2, 2, 3, 5, 8)[(i // 6) % 5], entry=("trm", "nes_cold")[i % 2],
+            precond=("exact", "exact", "exact", "identity")[(i // 2) % 4], ip=bool((i // 3) % 2), settings=("default", "default", "perturbed")[(i // 5) % 3],
+            cost=0.8)
+    # long runs: hundreds of accepted steps along a slowly converging curved valley (drift in any state carried across iterations)
+    for i in range(12 * mult):
+        add("long_valley", i, family="rosen", n=(2, 3, 5, 8)[i % 4], entry=("trm", "nes_cold")[i % 2], precond=("exact", "identity")[(i // 2) % 2],
+            ip=bool((i // 4) % 2), cost=6.0)
     ngroups = 32 if tier == "quick" else 64
     for j, c in enumerate(cases):
         c["group"] = "g%d" % (j % ngroups)
@@ -309,6 +323,12 @@ def check_trace(res, fam, p_req, start, rec, x_ret, flag, tol, obj, log_start, i
                {"n_reported": len(xs), "max_abs_diff": float(onp.max(onp.abs(x_ret - last))) if x_ret.shape == last.shape else "shape",
                 "flag": bool(flag)})
     res.count("returned_is_last_checked")
+
+    # evidence (never a verdict): the objective call that immediately precedes each report -- on the unchanged tree an accepted step
+    # is reported right after a fresh value(x) evaluation, the in-loop convergence exit right after gradient(y)
+    for pos in rec.pos:
+        kind = obj.log[pos - 1][0] if 0 < pos <= len(obj.log) else "none"
+        res.count("report_preceded_by_" + kind)
 
     # (iv) finiteness
     # hypothesis of the finiteness clause: "the objective is finite everywhere" -- refuted only by a call with a finite input
@@ -701,6 +721,97 @@ def run_sequence_case(case, res):
     return res
 
 
+def run_scale_case(case, res):
+    """two_scale: stiff well + O(1) non-quadratic part, start where the stiff part dominates by 8-16 decades.
+    long_valley: hundreds of accepted steps on a narrow curved valley.  Clauses as everywhere (descent judged on the harness's
+    own f at the reported iterates with the slack of the two values being compared)."""
+    import jax.numpy as np
+    from optimism import EquationSolver as es
+    from optimism import Objective as ObjMod
+    from vlib import monitors_c01 as M
+    from vlib.common import loguniform
+    from vlib.gen import c01_objectives as G
+
+    rng = rng_of(case["seed"])
+    fam, n, cls = case["family"], int(case["n"]), case["cls"]
+    kw = {"debug_info": False, "use_preconditioned_inner_product_for_cg": bool(case["ip"])}
+    if cls == "two_scale":
+        soft = case["soft"]
+        K = float(loguniform(rng, 1e6, 1e16)) if rng.random() < 0.85 else float(loguniform(rng, 1.0, 1e6))
+        nst = max(1, int(rng.integers(1, max(2, n // 2 + 1))))
+        stiff = onp.zeros(n, bool)
+        stiff[rng.choice(n, size=min(nst, n - 1), replace=False)] = True
+        kdiag = onp.where(stiff, K * 10.0 ** rng.uniform(-1, 0, n), 0.0)
+        if rng.random() < 0.5:
+            kdiag = onp.where(stiff, K, 0.0)
+        bshift = onp.where(rng.random(n) < 0.5, 0.0, onp.round(rng.standard_normal(n), 1))
+        c = [0.0, 0.0, 0.0, 0.0]
+        a = 0.1
+        y0 = onp.zeros(n)
+        y0[stiff] = rng.choice([-1.0, 1.0], size=int(stiff.sum())) * (1.0 if rng.random() < 0.6 else rng.uniform(0.2, 1.5))
+        ns = int((~stiff).sum())
+        # relative overshoot parameter: the Newton trial after the drop goes uphill by ~0.14*eps, to be compared with ulp(K/2)
+        epsr = min(0.05, 4e-16 * K) * 10.0 ** rng.uniform(-2.0, 0.3)
+        if soft in ("sqrt", "sqrt_coupled"):
+            c[0] = 1.0
+            y0[~stiff] = rng.choice([-1.0, 1.0], size=ns) * a * (1.0 + epsr * rng.uniform(0.5, 1.0, ns))
+            if soft == "sqrt_coupled":
+                c[3] = float(loguniform(rng, 1e-4, 1e-2))
+        elif soft == "softplus":
+            c[1] = 1.0
+            c[0] = 0.2
+            y0[~stiff] = rng.standard_normal(ns) * 0.5 + a
+        else:
+            c[2] = 1.0
+            y0[~stiff] = rng.choice([-1.0, 1.0], size=ns) * (1.0 / math.sqrt(3.0)) * (1.0 + rng.uniform(-0.2, 0.05, ns))   # near the inflection of (y^2-1)^2
+        data = G.pack(onp.diag(kdiag), bshift, c)
+        x0 = bshift + y0
+        if case["settings"] == "perturbed":
+            kw.update(tr_size=float(loguniform(rng, 1.5, 20.0)), eta1=float(loguniform(rng, 1e-12, 1e-6)), t1=float(rng.uniform(0.1, 0.5)),
+                      t2=float(rng.uniform(1.5, 3.0)), tol=float(loguniform(rng, 1e-9, 1e-6)), max_cg_iters=int(_pick(rng, (10, 50))))
+        res.count("two_scale_solves")
+        res.count("two_scale_soft_" + soft)
+        res.count("two_scale_K_decade_%02d" % int(math.floor(math.log10(K))))
+    else:
+        prob = G.gen_problem("rosen", n, rng, {"start": "random"})
+        Ad, bd, cd = G.unpack_np(prob["data"], n)
+        cd = list(cd)
+        cd[0] = float(loguniform(rng, 1.0, 30.0))           # 100*c0: narrow valley
+        data = G.pack(Ad, bd, cd)
+        x0 = onp.full(n, 1.0) + rng.standard_normal(n) * 0.3
+        x0[0] = -1.2
+        kw.update(max_trust_iters=600, tr_size=float(loguniform(rng, 0.004, 0.012)), t1=float(rng.uniform(0.8, 0.95)), t2=float(rng.uniform(1.005, 1.02)),
+                  eta3=0.75, tol=1e-9, max_cg_iters=int(_pick(rng, (5, 50))))
+        res.count("long_valley_solves")
+    settings = es.get_settings(**kw)
+    p_req = ObjMod.Params(np.asarray(data))
+    entry, pk = case["entry"], case["precond"]
+    p_init = p_req
+    if entry != "trm":
+        Ai, bi, ci = G.unpack_np(data, n)
+        p_init = ObjMod.Params(np.asarray(G.pack(Ai, bi + 0.25, ci)))
+    Rec = M.recording_objective()
+    obj = Rec(G.family(fam), np.asarray(x0), p_init, M.identity_precond_strategy(n) if pk == "identity" else None)
+    out = one_solve(res, obj, fam, p_req, x0, settings, entry, pk, x0, False)
+    if out is None:
+        return res
+    facts, x_ret, flag, start, exit_taken, rec = out
+    # evidence about one-step drops (own f at start -> reported iterates)
+    fj, gj = own_functions(fam)
+    vals = [float(fj(np.asarray(x), p_req)) for x in [start] + list(rec.xs)]
+    big = [i for i in range(1, len(vals)) if vals[i] > 0 and vals[i - 1] > 0 and vals[i - 1] >= 1e8 * vals[i]]
+    if big:
+        res.count("solves_with_one_step_objective_drop_ge_1e8")
+        if any(i + 1 < len(vals) and not onp.array_equal(([start] + list(rec.xs))[i + 1], ([start] + list(rec.xs))[i]) for i in big):
+            res.count("accepted_steps_right_after_a_drop_ge_1e8")
+    moves = sum(1 for i in range(1, len(vals)) if not onp.array_equal(([start] + list(rec.xs))[i], ([start] + list(rec.xs))[i - 1]))
+    res.count("accepted_or_reported_moves", moves)
+    if moves >= 100:
+        res.count("solves_with_100_or_more_accepted_steps")
+    res.nontrivial = moves >= 2
+    return res
+
+
 def run_case(case):
     import jax.numpy as np
     from optimism import EquationSolver as es
@@ -713,6 +824,8 @@ def run_case(case):
         return run_boundary_case(case, res)
     if case["cls"] == "load_sequence":
         return run_sequence_case(case, res)
+    if case["cls"] in ("two_scale", "long_valley"):
+        return run_scale_case(case, res)
     rng = rng_of(case["seed"])
     fam, n, cls = case["family"], int(case["n"]), case["cls"]
     opts = {"start": case["start"]}
